@@ -360,7 +360,74 @@ func nilnessIn(v ssa.Value, blk *ssa.BasicBlock) int {
 		}
 		cur = p
 	}
+	// `ok, err := g(x); if !ok { ... err ... }` where g says no only with an error
+	if ex, isEx := v.(*ssa.Extract); isEx {
+		if call, isCall := ex.Tuple.(*ssa.Call); isCall {
+			if g := call.Call.StaticCallee(); g != nil && g.Signature.Results().Len() == 2 && ex.Index == 1 && falseImpliesErr(g) {
+				cur = blk
+				for i := 0; i < 8 && len(cur.Preds) == 1; i++ {
+					p := cur.Preds[0]
+					if len(p.Instrs) > 0 && len(p.Succs) == 2 && p.Succs[0] != p.Succs[1] {
+						if iff, ok := p.Instrs[len(p.Instrs)-1].(*ssa.If); ok {
+							isB0 := func(x ssa.Value) bool {
+								e, ok := x.(*ssa.Extract)
+								return ok && e.Tuple == ex.Tuple && e.Index == 0
+							}
+							falseSucc := -1
+							if isB0(iff.Cond) {
+								falseSucc = 1
+							} else if u, ok := iff.Cond.(*ssa.UnOp); ok && u.Op == token.NOT && isB0(u.X) {
+								falseSucc = 0
+							}
+							if falseSucc >= 0 && p.Succs[falseSucc] == cur {
+								return 1
+							}
+						}
+					}
+					cur = p
+				}
+			}
+		}
+	}
 	return 0
+}
+
+var falseImpliesErrMemo = map[*ssa.Function]bool{}
+
+// falseImpliesErr: g returns (bool, error) and every return whose verdict is the constant false
+// carries an error that is non-nil there; a computed verdict makes the answer no.
+func falseImpliesErr(g *ssa.Function) bool {
+	if v, ok := falseImpliesErrMemo[g]; ok {
+		return v
+	}
+	falseImpliesErrMemo[g] = false
+	if g.Blocks == nil || g.Signature.Results().Len() != 2 || g.Signature.Results().At(0).Type().String() != "bool" || g.Signature.Results().At(1).Type().String() != "error" {
+		return false
+	}
+	n := 0
+	for _, b := range g.Blocks {
+		for _, in := range b.Instrs {
+			r, ok := in.(*ssa.Return)
+			if !ok {
+				continue
+			}
+			if len(r.Results) != 2 {
+				return false
+			}
+			c, ok := r.Results[0].(*ssa.Const)
+			if !ok || c.Value == nil {
+				return false
+			}
+			if constString(c) == "false" {
+				if !nonNilAt(r.Results[1], b) {
+					return false
+				}
+				n++
+			}
+		}
+	}
+	falseImpliesErrMemo[g] = n > 0
+	return n > 0
 }
 
 // ---- facts about phis that are branched on in a LATER block -------------------------------
